@@ -158,6 +158,15 @@ def list_subqueries(segment: BaseSegment) -> list[SubQueryTuple]:
                                 else None
                             )
                             subquery.append(SubQueryTuple(bracketed_segment, alias))
+                    for else_clause in case_expression.get_children("else_clause"):
+                        if else_expression := else_clause.get_child("expression"):
+                            for bracketed_segment in else_expression.get_children(
+                                "bracketed"
+                            ):
+                                if is_subquery(bracketed_segment):
+                                    subquery.append(
+                                        SubQueryTuple(bracketed_segment, None)
+                                    )
             elif function := select_clause_element.get_child("function"):
                 for bracketed in function.recursive_crawl("bracketed"):
                     if is_subquery(bracketed):
